@@ -59,8 +59,8 @@ def flips(b):
 def run(ctx):
     r = lib.rng("C05")
     enc, dec, gm = [], [], []
-    lens = list(range(0, 81)) + [95, 96, 97, 127, 128, 129, 255, 256, 257, 1000, 2047, 2048] if ctx.thorough else \
-        list(range(0, 36)) + [47, 48, 49, 63, 64, 65, 127, 128, 129, 255, 256, 1000, 2048]
+    lens = list(range(0, 81)) + [95, 96, 97, 127, 128, 129, 255, 256, 257, 511, 512, 513, 1000, 1023, 1024, 1025, 1536, 2047, 2048] if ctx.thorough else \
+        list(range(0, 36)) + [47, 48, 49, 63, 64, 65, 127, 128, 129, 255, 256, 511, 512, 513, 1000, 1023, 1024, 1025, 2047, 2048]
     ics = [0, 1, 2, 255, 256, 2 ** 31, 2 ** 32 - 2, 2 ** 32 - 1]
     for suite in (0, 1, 2):
         kl = 32 if suite == 2 else 16
